@@ -317,6 +317,24 @@ pub enum Thickness {
 /// Classification of the closed polytope { a_i.x <= b_i } (DESIGN G1).
 /// t* = max t such that a_i.x + t*s_i <= b_i for all i, s_i = max(1, |a_i|_1).
 pub fn thickness(n: usize, rows: &[(Vec<Q>, Q)], delta: &Q) -> Thickness {
+    // a zero row 0 <= b holds for every x (b >= 0) or for none (b < 0): it says nothing about margins in x
+    let mut worst_zero: Option<Q> = None;
+    let rows: Vec<&(Vec<Q>, Q)> = rows
+        .iter()
+        .filter(|(a, b)| {
+            if a.iter().all(|v| v.is_zero()) {
+                if b.is_neg() && worst_zero.as_ref().map(|w| b < w).unwrap_or(true) {
+                    worst_zero = Some(b.clone());
+                }
+                false
+            } else {
+                true
+            }
+        })
+        .collect();
+    if let Some(w) = worst_zero {
+        return if w < -delta.clone() { Thickness::RobustEmpty } else { Thickness::Thin };
+    }
     if rows.is_empty() {
         return Thickness::Fat;
     }
